@@ -25,7 +25,10 @@ func (core *JApiCore) processPasteDirectiveList(list []*directive.Directive) *je
 func (core *JApiCore) processDirective(d *directive.Directive) *jerr.JApiError {
 	if d.Type() == directive.Paste {
 		if je := core.processPasteDirective(d); je != nil {
-			return d.KeywordError(je.Error())
+			// The message only: the include trace of the PASTE directive itself is
+			// attached by KeywordError (je.Error() would glue the rendered trace of
+			// the inner error into the message).
+			return d.KeywordError(je.Msg)
 		}
 		return nil
 	}
